@@ -914,6 +914,11 @@ class Ref(Field):
 
         assert isinstance(referenced, Packet)
 
+        # parse into a fresh packet: selectors like 'type.chooses({3: Foo()})'
+        # hand out the same instance every time and it must not end up
+        # shared by all the packets (or list's elements) parsed with it
+        referenced = referenced.__class__(_initialize_fields=False)
+
         setattr(pkt, self.field_name, referenced)
         return referenced.unpack_impl(raw, offset, **k)
 
